@@ -187,6 +187,10 @@ def run(chk: Check) -> None:
     _capture(sub, lt)
     _get(sub, lt)
     chk.adopt(sub, None, "R13.4")
+    from .ownership import ownership
+    for prop_, rule_, construct_, ok_, loc_, msg_, facts_ in ownership(repo).obs:
+        if rule_ in ("R05.3", "R03.5") or (rule_ == "R03.3" and "leave-previous-owner" in construct_):
+            chk.ob("R13.4", construct_, ok_, loc_, msg_, facts_)
     sec = repo.cls("Section")
     delegation(chk, sec, "symbolic_expressions_at",
                [("attr", ("self",), "byte_intervals"),
@@ -215,7 +219,7 @@ def run(chk: Check) -> None:
         try:
             t = function_term(f)
         except OutsideFragment as e:
-            chk.ob("R13.4", key, False, f.loc(), str(e))
+            chk.ob("R13.4", key, False, f.loc(), str(e), undecided=True)
             continue
         p = f.param_names()[1]
         ok = (t == ("call", ("name", "symbolic_expressions_at"), (("attr", ("self",), child), ("param", p)))) or \
